@@ -131,6 +131,20 @@ func build(in *Input, perm uint64) *built {
 			_, err := bb.WriteTo(&buf)
 			return buf.Bytes(), err
 		}
+		// the destination is a bundle.CountingWriter that has already carried other data (bundles
+		// appended to one stream): the bytes of THIS bundle must not depend on what went before
+		b.serializers["bundle.WriteTo -> CountingWriter with earlier data"] = func() ([]byte, error) {
+			var buf bytes.Buffer
+			cw := bundle.NewCountingWriter(&buf)
+			prefix := gen.Filler(1+int(in.Tag%97), in.Tag)
+			cw.Write(prefix)
+			n, err := bb.WriteTo(cw)
+			out := buf.Bytes()[len(prefix):]
+			if err == nil && n != int64(len(out)) {
+				return nil, fmt.Errorf("WriteTo returned %d, %d bytes were written for this bundle", n, len(out))
+			}
+			return out, err
+		}
 		b.faulty["bundle.WriteTo -> failing writer"] = func(k int) error { _, err := bb.WriteTo(&failAfter{k: k, short: k%2 == 1}); return err }
 		if len(bb.Exchanges) > 0 {
 			b.serializers["Response.EncodeHeader"] = func() ([]byte, error) { return bb.Exchanges[0].Response.EncodeHeader() }
@@ -393,11 +407,31 @@ type PermCase struct {
 	Reps  int      `json:"reps"`
 }
 
+// sameBytesAcrossDestinations: serializers that are the same function into different kinds of
+// destination must agree with each other, not only each with itself.
+func sameBytesAcrossDestinations(b *built, r *vh.R) bool {
+	f1, ok1 := b.serializers["bundle.WriteTo"]
+	f2, ok2 := b.serializers["bundle.WriteTo -> CountingWriter with earlier data"]
+	if !ok1 || !ok2 {
+		return true
+	}
+	o1, e1 := f1()
+	o2, e2 := f2()
+	if (e1 == nil) != (e2 == nil) || (e1 == nil && !bytes.Equal(o1, o2)) {
+		r.Failf("destination-dependent", "Bundle.WriteTo gives different results for a bytes.Buffer and for a CountingWriter that has already carried data: %d bytes (err %v) vs %d bytes (err %v), first difference at %d", len(o1), e1, len(o2), e2, firstDiff(o1, o2))
+		return false
+	}
+	return true
+}
+
 var permProp = vh.Define("C18", "permutations", func(c PermCase, r *vh.R) {
 	r.Class("kind:" + c.In.Kind)
 	first := map[string][]byte{}
 	for pi, perm := range append([]uint64{0}, c.Perms...) {
 		obj := build(&c.In, perm)
+		if !c.In.Colliding && !sameBytesAcrossDestinations(obj, r) {
+			return
+		}
 		for _, name := range names(obj.serializers) {
 			for rep := 0; rep < c.Reps; rep++ {
 				out, err := obj.serializers[name]()
